@@ -445,6 +445,24 @@ class C01(EvalProp):
 
     def cases(self, ctx, g, n):
         cs = mk_eval_cases(g, n, 'c', funcs=0.3, acc=0.0, jnum=0.2, alias=0.05, fanout=0.004)
+        # filter operands that START with a multi-entry selector (all wildcards: a union on arrays; names and wildcards mixed),
+        # over members of every type
+        r = g.r
+        for i in range(max(30, n // 60)):
+            def memb():
+                k = r.random()
+                if k < 0.35:
+                    return ('a', [r.choice([('n', 1.0), ('o', [(b'a', ('n', 2.0))]), ('a', [('n', 3.0)]), ('s', b'x')]) for _ in range(r.randint(0, 3))])
+                if k < 0.7:
+                    return ('o', [(kk, r.choice([('n', 1.0), ('o', [(b'a', ('n', 2.0))]), ('a', [])])) for kk in r.sample([b'a', b'b', b'c'], r.randint(0, 3))])
+                return g.scalar()
+            body = ('a', [memb() for _ in range(r.randint(1, 5))])
+            head = r.choice(['[*,*]', '[*,*,*]', "['a',*]", "[*,'a']", "['a','b']", '[*,*]', '[0,*]', '[*,0]'])
+            tail = r.choice(['', '', '.a', '[0]', '[*]', '..a'])
+            form = r.choice(['$[?(@%s%s)]', '$[?(!@%s%s)]', '$[?(@%s%s == 1)]', '$.x[?(@%s%s)]', '$[?(@%s%s)]%s'])
+            path = form % ((head, tail) if form.count('%s') == 2 else (head, tail, r.choice(['[0]', '.a', '[*]'])))
+            doc = body if '$.x' not in path else ('o', [(b'x', body)])
+            cs.append(Case('mo%d' % i, path.encode(), [doc], meta={'family': 'multi-entry-operand-head', 'nsteps': 2}))
         # tree dumps for a subset: parser model vs the real parser, node by node
         for c in cs[: max(50, n // 10)]:
             c.mode = 'tree'
@@ -598,8 +616,10 @@ def call_fails(call):
     if not m:
         return True
     kind, name, arg = m.groups()
-    if name in ('fail', 'afail'):
+    if name in ('fail', 'afail', 'relay'):
         return True
+    if kind == 'F' and name in gens.AGG_FUNCS or kind == 'G' and name in gens.FILTER_FUNCS:
+        return True             # a name of the other library: always fails
     if name == 'twice':
         return not arg.startswith('n(')
     if name == 'fstr':
@@ -1420,6 +1440,18 @@ class C07(Prop):
         n = ctx.n(1200, 10000) * budget_scale
         self.wide_histories(ctx, res, gens.G(ctx.seed * 19 + 77 + seed_offset), budget_scale)
         cases = load_corpus(self.id, ctx.root) if seed_offset == 0 else []
+        # containers nested 9..40 levels deep, with siblings at every level: the pre-order of `..` far below the usual depth
+        for i in range(max(10, n // 60)):
+            depth = r.choice([9, 10, 12, 16, 17, 18, 24, 33, 34, 40])
+            node = ('o', [(b'a', ('s', b'leaf')), (b'z', ('n', 0.0))])
+            for lv in range(depth, 0, -1):
+                sib = [('n', float(lv)), ('o', [(b'a', ('n', float(100 + lv)))])][:r.randint(0, 2)]
+                if r.random() < 0.5:
+                    node = ('a', [node] + sib) if r.random() < 0.7 else ('a', sib + [node])
+                else:
+                    node = ('o', [(b'a', ('n', float(lv))), (r.choice([b'b', b'0', b'z']), node)] + ([(b'c', ('a', sib))] if sib else []))
+            path = r.choice([b'$..a', b"$..['a']", b'$..[0]', b'$..*', b'$..[*]', b'$..z', b'$..[?(@.a)]', b'$..a..a', b'$..[0]..a'])
+            cases.append(Case('deep%d' % i, path, [node, shuffle_doc(r, node)], meta={'perm_idx': [0, 1], 'nkeys': 3, 'family': 'deep-nesting'}))
         templates = [b'$.*', b'$..*', b'$[*]', b'$..[*]', b'$[?(@)]', b'$..[?(@)]', b'$.*.*', b'$..a', b"$..['a','b']",
                      b'$[?(@.a)]', b'$..[?(@.a || @.b)]', b'$.*[*]', b'$..*.*', b"$['b','a',*]", b'$[*,*]']
         for i in range(n):
@@ -2330,8 +2362,9 @@ class C13(Prop):
         n = ctx.n(6000, 30000) * budget_scale
         cases = load_corpus(self.id, ctx.root) if seed_offset == 0 else []
         for i in range(n):
-            doc = g.filter_doc(False, 0) if r.random() < 0.4 else g.doc(3, False, 0)
-            if r.random() < 0.7:
+            jn_ = r.random() < 0.2          # documents decoded with UseNumber: Set must store the value it is given there too
+            doc = g.filter_doc(jn_, 0) if r.random() < 0.4 else g.doc(3, jn_, 0)
+            if r.random() < 0.7 and not jn_:
                 doc = pairwise_distinct_leaves(g, doc, [0])
             steps = g.gen_path(doc, 4, 0.15)
             f, a = gens.funcs_used(steps)
@@ -2445,6 +2478,22 @@ class C14(Prop):
             if not any(s[0] in ('ffun', 'agg') for s in steps) and b'()' not in gens.render_path(steps):
                 pre_of[c.id] = len(pres)
                 pres.append(Case('p%d' % i, gens.render_path(steps), [doc], f, a, False))
+        # two and more aggregate functions chained inside a filter operand, `$`-rooted and `@`-rooted, alone and in comparisons
+        for i in range(max(40, n // 40)):
+            ags = [r.choice(['amax', 'cnt', 'arr', 'first']) for _ in range(r.randint(2, 3))]
+            mid = r.choice(['', '', '.wrap()', '.id()'])
+            chain = ''.join('.%s()' % a_ for a_ in ags[:1]) + mid + ''.join('.%s()' % a_ for a_ in ags[1:])
+            root_ = r.choice(['$.lim', '$.lim[*]', '@.v', '@.v[*]', '$.items[*].n'])
+            lit = r.choice(['1', '2', '5', '9'])
+            op = r.choice(['>', '>=', '<', '==', '!='])
+            body = r.choice(['%s%s %s %s' % (root_, chain, op, lit), '%s %s %s%s' % (lit, op, root_, chain), '%s%s' % (root_, chain),
+                             '@.n < %s%s' % (root_ if root_[0] == '$' else '$.lim', chain)])
+            path = ('$.items[?(%s)]' % body) + r.choice(['', '.n'])
+            doc = ('o', [(b'lim', ('a', [('n', float(r.randint(1, 9))) for _ in range(r.randint(1, 3))])),
+                         (b'items', ('a', [('o', [(b'n', ('n', float(j))), (b'v', ('a', [('n', float(r.randint(0, 9))) for _ in range(r.randint(0, 3))]))] +
+                                                  ([(b'lim', ('a', [('n', 1.0), ('n', 2.0)]))] if r.random() < 0.5 else [])) for j in range(r.randint(1, 4))]))])
+            fl = sorted({x for x in ('wrap', 'id') if x in path})
+            cases.append(Case('ca%d' % i, path.encode(), [doc], fl, sorted(set(ags)), r.random() < 0.15, meta={'fs': [('agg', a_) for a_ in ags], 'nsteps': 2}))
         go, mo = both_sides(cases)
         go_p = core.run_go(pres) if pres else []
         for c, g_, m in zip(cases, go, mo):
@@ -2762,7 +2811,7 @@ class C15(Prop):
 
 
 # =======================================================================================
-KEY_ALPHABET = [0x20, 0x21, 0x22, 0x23, 0x24, 0x27, 0x28, 0x29, 0x2a, 0x2c, 0x2d, 0x2e, 0x2f, 0x3a, 0x3f, 0x40, 0x5b, 0x5c,
+KEY_ALPHABET = [0x3000, 0xa0, 0x2003, 0x20, 0x21, 0x22, 0x23, 0x24, 0x27, 0x28, 0x29, 0x2a, 0x2c, 0x2d, 0x2e, 0x2f, 0x3a, 0x3f, 0x40, 0x5b, 0x5c,
                 0x5d, 0x5f, 0x60, 0x7b, 0x7e, 0x7f, 0x00, 0x01, 0x08, 0x09, 0x0a, 0x0d, 0x1f, 0x30, 0x41, 0x61, 0x62, 0x6e,
                 0x74, 0x75, 0x78, 0xe9, 0x3042, 0xfffd, 0xffff, 0xd7ff, 0xe000, 0x10000, 0x1f600, 0x10ffff, 0x80, 0x7ff, 0x800]
 
@@ -2811,7 +2860,7 @@ class C16(Prop):
             key = gen_key(r)
             kb = key.encode('utf-8')
             sibs = [s for s in near_misses(r, key)]
-            pos = r.randint(0, 5)
+            pos = r.randint(0, 6)
             # the member's value: usually 1, sometimes null / false / "" / an empty container (a member holding null is still a
             # member); the filter position compares with == 1 and keeps the number
             tv = ('n', 1.0) if (pos == 3 or r.random() < 0.6) else r.choice([('z',), ('b', False), ('s', b''), ('a', []), ('o', []), ('z',)])
@@ -2843,6 +2892,15 @@ class C16(Prop):
                 elif pos == 3:
                     c = Case(cid, b'$[?(@' + sp + b' == 1)]', [('a', [obj, ('o', [(b'zz', ('n', 1.0))])])])
                     w = 'ok:[%s]' % core.doc_render(obj)
+                elif pos == 6:
+                    # the operand of an existence filter, plain and negated: the captured operand text contains the key as written
+                    other = ('o', [(b'zz', ('n', 1.0))]) if kb != b'zz' else ('o', [(b'yy', ('n', 1.0))])
+                    if j % 2 == 0:
+                        c = Case(cid, b'$[?(@' + sp + b')]', [('a', [obj, other])])
+                        w = 'ok:[%s]' % core.doc_render(obj)
+                    else:
+                        c = Case(cid, b'$[?(!@' + sp + b')]', [('a', [obj, other])])
+                        w = 'ok:[%s]' % core.doc_render(other)
                 elif pos == 5:
                     # first step of a path written without its leading $, followed by another step
                     first = sp[1:] if sp.startswith(b'.') else sp
